@@ -745,6 +745,13 @@ def rule_R1a(ctx, rep, config="c-lib"):
                     for u in f.uses().get(vi.id, []):
                         if u.op == "store" and resolve_addr(f, u.ops[1]).last_field() == "grammar." + gname:
                             ok = True
+                    # ... or the field is assigned from the file-scope variable right after it got the value
+                    for u in f.all_insts():
+                        if u.op == "store" and resolve_addr(f, u.ops[1]).last_field() == "grammar." + gname:
+                            ld = f.inst(strip_casts(f, u.ops[0]))
+                            if ld is not None and ld.op == "load" and resolve_addr(f, ld.ops[0]).root == ("g", gname) and not resolve_addr(f, ld.ops[0]).steps \
+                                    and f.inst_dominates(i, ld):
+                                ok = True
             if ok:
                 rep.ok("R1a", key, sample={"function": f.name, "store": i.where(), "cell": gname})
             else:
